@@ -467,6 +467,79 @@ func goroutines() []goFact {
 	return out
 }
 
+// ---------- reads from the object store ----------
+
+// retrieveSite: a call of (*S3BlobStorage).Retrieve and whether its error is handed on: the call is an assignment directly
+// followed by `if err != nil { … return …, <something that is not nil> }`. A site that looks at the error only to skip the
+// content (`if c, err := x.Retrieve(id); err == nil { … }`) turns an unreadable object into an empty part.
+type retrieveSite struct {
+	at         string
+	propagates bool
+}
+
+func retrieveSites() []retrieveSite {
+	var out []retrieveSite
+	isRetrieve := func(e ast.Expr) bool {
+		ce, ok := e.(*ast.CallExpr)
+		if !ok {
+			return false
+		}
+		se, ok := ce.Fun.(*ast.SelectorExpr)
+		return ok && se.Sel.Name == "Retrieve"
+	}
+	for pkg, fs := range pkgs {
+		if pkg == "helpers" {
+			continue
+		}
+		for name, fd := range fs {
+			if strings.HasPrefix(funcFile[pkg+"."+name], "testing_") {
+				continue
+			}
+			found := map[ast.Node]bool{}
+			// the propagating shape, statement lists first
+			ast.Inspect(fd.Body, func(n ast.Node) bool {
+				var list []ast.Stmt
+				switch b := n.(type) {
+				case *ast.BlockStmt:
+					list = b.List
+				case *ast.CaseClause:
+					list = b.Body
+				case *ast.CommClause:
+					list = b.Body
+				}
+				for i, st := range list {
+					as, ok := st.(*ast.AssignStmt)
+					if !ok || len(as.Rhs) != 1 || !isRetrieve(as.Rhs[0]) {
+						continue
+					}
+					found[as.Rhs[0]] = true
+					site := retrieveSite{at: pkg + "." + name}
+					if i+1 < len(list) {
+						if ifs, ok := list[i+1].(*ast.IfStmt); ok && strings.Contains(src(ifs.Cond), "err != nil") {
+							for _, s2 := range ifs.Body.List {
+								if rs, ok := s2.(*ast.ReturnStmt); ok && len(rs.Results) > 0 && src(rs.Results[len(rs.Results)-1]) != "nil" {
+									site.propagates = true
+								}
+							}
+						}
+					}
+					out = append(out, site)
+				}
+				return true
+			})
+			// every other call
+			ast.Inspect(fd.Body, func(n ast.Node) bool {
+				if e, ok := n.(ast.Expr); ok && isRetrieve(e) && !found[n] {
+					out = append(out, retrieveSite{at: pkg + "." + name})
+				}
+				return true
+			})
+		}
+	}
+	sort.Slice(out, func(i, j int) bool { return out[i].at < out[j].at })
+	return out
+}
+
 // ---------- accept loops ----------
 
 // acceptFact: a `for` loop that takes connections off a listener (`conn, err := x.Accept()`), and what the statement guarding
@@ -792,6 +865,13 @@ func main() {
 		v, n, k := idleClock()
 		fmt.Fprintf(&b, "/-- the variable the silent-IDLE limit is measured from, its assignments, and those inside a loop -/\ndef idleClock : Bytes × Nat × Nat := (%s, %d, %d)\n\n", lb(v), n, k)
 	}
+
+	// reads from the object store
+	b.WriteString("/-- every call of the object store's Retrieve: the function it is in, and whether its error is handed on -/\ndef retrieveSites : List (Bytes × Bool) := [\n")
+	for _, r := range retrieveSites() {
+		fmt.Fprintf(&b, "  (%s, %s),\n", lb(r.at), bl(r.propagates))
+	}
+	b.WriteString("]\n\n")
 
 	// calls that end the process from inside the service packages (not cmd/*, not the test-support files)
 	b.WriteString("structure ExitFact where\n  pkg : Bytes\n  inFunc : Bytes\n  call : Bytes\nderiving Repr\n\n")
